@@ -106,7 +106,7 @@ theorem anonsFrom_names (k : Nat) (cs : List CItem) :
     | obj i bs => simp [anonsFrom, nucCount, ih]
     | nuc p =>
       simp only [anonsFrom, nucCount, List.map_cons, ih]
-      rw [Nat.add_comm (nucCount r) 1, List.range'_succ]
+      rw [List.range'_succ]
       simp [mkAnon]
 
 theorem sgAnons_names (sg : Segs) : (sgAnons sg).map (·.name) = (sgNums sg).map anonName := by
@@ -132,6 +132,18 @@ theorem mem_anonsFrom {k : Nat} {cs : List CItem} {e : SeqE} (h : e ∈ anonsFro
       · obtain ⟨j, p, h1, h2, h3, h4⟩ := ih h
         exact ⟨j, p, by omega, by simp [nucCount]; omega, List.mem_cons_of_mem _ h3, h4⟩
 
+theorem nodup_range1 (a m : Nat) : (List.range' a m).Nodup := List.nodup_range'
+
+theorem nodup_nums_wild1 (a m n : Nat) : (List.range' a m ++ List.range' (a+m) n ++ [a+m+n]).Nodup := by
+  simp only [List.nodup_append, nodup_range1, List.mem_range'_1, List.mem_append, List.mem_cons,
+        List.not_mem_nil, or_false, List.nodup_cons, List.nodup_nil, not_false_eq_true, and_true, true_and, ne_eq]
+  refine ⟨fun x hx y hy => by omega, fun x hx y hy => by omega⟩
+
+theorem nodup_nums_wild2 (a m n : Nat) :
+    (List.range' a m ++ (List.range' (a+m+n) 1 ++ List.range' (a+m) n)).Nodup := by
+  simp only [List.nodup_append, nodup_range1, List.mem_range'_1, List.mem_append, true_and, ne_eq]
+  refine ⟨fun x hx y hy => by omega, fun x hx y hy => by omega⟩
+
 theorem nodup_names_of_nums {l : List Nat} (h : l.Nodup) : (l.map anonName).Nodup := by
   unfold List.Nodup at *
   exact List.Pairwise.map anonName (fun a b hab hn => hab (anonName_inj hn)) h
@@ -153,8 +165,8 @@ theorem buildSuper_nf {a : Nat} {cs : List CItem} {len : Option Nat} {b : Built}
   rcases buildSuper_ok_cases h with ⟨hw, _, rfl⟩ | ⟨pre, w, post, L, rfl, hpre, hw, hpost, rfl, hle, rfl⟩
   · refine ⟨[(a, cs)], ⟨by simp [sgRefs], by simp [sgBases], by simp [sgLen], by simpa using hw,
       by simp [sgAnons], ?_, ?_, ?_, by simp⟩, by simp [sgItems]⟩
-    · simp only [anonsFrom_names]; exact nodup_names_of_nums List.nodup_range'
-    · simp [sgNums, List.nodup_range']
+    · simp only [anonsFrom_names]; exact nodup_names_of_nums (nodup_range1 _ _)
+    · simp [sgNums, nodup_range1]
     · simp only [sgNums, List.flatMap_cons, List.flatMap_nil, List.append_nil, List.mem_range'_1]
       intro j hj; omega
   · refine ⟨[(a, pre), (a + nucCount pre + nucCount post,
@@ -175,16 +187,9 @@ theorem buildSuper_nf {a : Nat} {cs : List CItem} {len : Option Nat} {b : Built}
       rw [← List.map_append, show [anonName (a + nucCount pre + nucCount post)] = [a + nucCount pre + nucCount post].map anonName from rfl,
         ← List.map_append]
       apply nodup_names_of_nums
-      simp only [List.nodup_append, List.nodup_range', List.mem_range'_1, List.mem_append, List.mem_cons,
-        List.not_mem_nil, or_false, List.nodup_cons, List.nodup_nil, not_false_eq_true, and_true, true_and, ne_eq]
-      refine ⟨?_, ?_⟩
-      · intro x hx y hy; omega
-      · intro x hx y hy; omega
-    · simp only [sgNums, nucCount, List.flatMap_cons, List.flatMap_nil, List.append_nil, List.nodup_append,
-        List.nodup_range', List.mem_range'_1, List.mem_append, true_and, ne_eq]
-      refine ⟨?_, ?_⟩
-      · intro x hx y hy; omega
-      · intro x hx y hy; omega
+      exact nodup_nums_wild1 a (nucCount pre) (nucCount post)
+    · simp only [sgNums, nucCount, List.flatMap_cons, List.flatMap_nil, List.append_nil, Nat.zero_add]
+      exact nodup_nums_wild2 a (nucCount pre) (nucCount post)
     · simp only [sgNums, nucCount, List.flatMap_cons, List.flatMap_nil, List.append_nil, List.mem_append,
         List.mem_range'_1]
       intro j hj; omega
